@@ -163,11 +163,19 @@ class NonFinite(Exception):
     pass
 
 
-def gen_case(rng, idx, rep, stream, z=None, force_donor=False):
+STRUCTURES = ["indep", "same_net", "const_net", "same_ne", "sep2d", "same_te", "const_donor"]
+NEEDS_DONOR = ("same_net", "const_net", "sep2d", "const_donor")
+
+
+def gen_case(rng, idx, rep, stream, z=None, force_donor=False, structure="indep"):
     z = z or rng.choice([1, 1, 2, 2, 3, 4, 5, 6, 6, 7, 8, 9, 10, 10, 11, 12, 13, 14, 15, 16, 17, 18, 18])
     realistic = rng.random() < 0.7
     donor_mode = rng.choice(["none"] * 3 + ["donor"] * 8 + ["donor_zero", "donor_nodens"])
-    if force_donor:
+    if rep in ("scalar", "fun1d_scalar"):
+        structure = "indep"
+    if structure == "sep2d" and rep not in ("array2d", "fun2d", "interp2d"):
+        structure = "same_net"
+    if force_donor or structure in NEEDS_DONOR:
         donor_mode = "donor"
     donor = None
     if donor_mode != "none":
@@ -181,7 +189,7 @@ def gen_case(rng, idx, rep, stream, z=None, force_donor=False):
         shape = (rng.randint(3, 4),)
     else:
         shape = (2, rng.randint(2, 3))
-    return {"idx": idx, "rep": rep, "stream": stream, "span": STREAMS[stream]["span"], "Z": z,
+    return {"idx": idx, "rep": rep, "stream": stream, "structure": structure, "sep_swap": rng.random() < 0.5, "span": STREAMS[stream]["span"], "Z": z,
             "scale": 10.0 ** rng.uniform(-16, -13) if realistic else 10.0 ** rng.uniform(-1, 1),
             "ne_decade": rng.uniform(18, 20) if realistic else rng.uniform(-1, 1),
             "donor_mode": donor_mode, "donor": donor, "shape": shape,
@@ -255,11 +263,24 @@ def run_case(ib, rec, case, rng_mod):
         fy = np.array([-1.0 + 0.875 * i + rng.randint(0, 4) / 16.0 for i in range(shape[1])])
         free_variable = (fx, fy)
 
-    def make_profile(lo, hi, positive=True, allow_zero=False):
-        """returns (representation handed to the implementation, flat list of point values)"""
-        vals = np.array([quant(rnd(lo, hi)) for _ in range(npts)]).reshape(shape)
-        if allow_zero and rng.random() < 0.3:
-            vals.flat[rng.randrange(npts)] = 0.0
+    def make_profile(lo, hi, positive=True, allow_zero=False, pattern="indep"):
+        """returns (representation handed to the implementation, flat list of point values).
+        pattern: indep (every point its own value), pairs (flat points 2j, 2j+1 share a value), const,
+        x_only / y_only (2-D: the value depends on one coordinate only)"""
+        draws = [quant(rnd(lo, hi)) for _ in range(npts)]
+        if allow_zero and pattern == "indep" and rng.random() < 0.3:
+            draws[rng.randrange(npts)] = 0.0
+        if pattern == "pairs":
+            flatv = [draws[k // 2] for k in range(npts)]
+        elif pattern == "const":
+            flatv = [draws[0]] * npts
+        elif pattern == "x_only" and len(shape) == 2:
+            flatv = [draws[i] for i in range(shape[0]) for j in range(shape[1])]
+        elif pattern == "y_only" and len(shape) == 2:
+            flatv = [draws[j] for i in range(shape[0]) for j in range(shape[1])]
+        else:
+            flatv = draws
+        vals = np.array(flatv).reshape(shape)
         if rep == "scalar":
             v = float(vals.flat[0])
             return (v if rng.random() < 0.5 else np.float64(v)), [v]
@@ -269,33 +290,58 @@ def run_case(ib, rec, case, rng_mod):
             kind = rng.choice(["lin", "arg", "array"]) if rep in ("mixed1d", "interp1d", "eqmap") else rng.choice(["lin", "arg"])
             if rep == "fun1d_scalar" or len(fv) < 2:
                 kind = "arg"
+            elif pattern == "pairs" and kind == "arg":
+                kind = "lin"
             if kind == "array":
                 return vals.copy(), [float(v) for v in vals.flat]
             if kind == "lin":
                 f = _lin1d(vals, fv)
+            elif pattern == "const":
+                f = _arg1d(draws[0], 0.0)
             else:
                 f = _arg1d(quant(rnd(lo, hi)), quant(rnd(0.0, (hi - lo) / 4.0), 6))
             xs = fv if rep != "fun1d_scalar" else [fv[0]]
             return f, [float(f(float(x))) for x in xs]
         if rep in ("fun2d", "interp2d"):
             kind = rng.choice(["interp", "arg"])
+            if pattern == "pairs":
+                kind = "interp"
             if kind == "interp":
                 from raysect.core.math.function.float import Interpolator2DArray
                 f = Interpolator2DArray(free_variable[0], free_variable[1], vals, 'linear', 'none', 0, 0)
             else:
+                c1 = quant(rnd(0.0, (hi - lo) / 8.0), 6)
                 c2 = quant(rnd(0.0, (hi - lo) / 8.0), 6)
-                f = _arg2d(quant(rnd(lo, hi)) + c2, quant(rnd(0.0, (hi - lo) / 8.0), 6), c2)     # y >= -1 on the grid
+                if pattern in ("const", "y_only"):
+                    c1 = 0.0
+                if pattern in ("const", "x_only"):
+                    c2 = 0.0
+                f = _arg2d(quant(rnd(lo, hi)) + c2, c1, c2)     # y >= -1 on the grid
             return f, [float(f(float(x), float(y))) for x in free_variable[0] for y in free_variable[1]]
         raise AssertionError(rep)
 
-    ne_rep, ne_pts = make_profile(0.5 * base, 2.0 * base)
-    te_rep, te_pts = make_profile(1.0, 1000.0)
+    # structure of the profile: which inputs share values between points (every point is still compared
+    # with the model evaluated at ITS OWN (n_e, t_e, n_D))
+    structure = case.get("structure", "indep")
+    a_only, b_only = ("y_only", "x_only") if case.get("sep_swap") else ("x_only", "y_only")
+    pat_ne, pat_te, pat_nd = {
+        "indep": ("indep", "indep", "indep"),
+        "same_net": ("pairs", "pairs", "indep"),      # repeated (n_e, t_e), different donor density
+        "const_net": ("const", "const", "indep"),     # constant n_e, t_e, varying donor
+        "same_ne": ("pairs", "indep", "indep"),       # repeated n_e, different t_e
+        "same_te": ("indep", "pairs", "indep"),       # repeated t_e, different n_e
+        "const_donor": ("indep", "indep", "const"),   # varying n_e, t_e, constant donor
+        "sep2d": (a_only, a_only, b_only),            # n_e, t_e depend on one coordinate, the donor on the other
+    }[structure]
+
+    ne_rep, ne_pts = make_profile(0.5 * base, 2.0 * base, pattern=pat_ne)
+    te_rep, te_pts = make_profile(1.0, 1000.0, pattern=pat_te)
     if rep == "mixed1d" and not isinstance(ne_rep, np.ndarray) and not isinstance(te_rep, np.ndarray):
-        te_arr = np.array([quant(rnd(1.0, 1000.0)) for _ in range(npts)])
+        te_arr = np.array(te_pts)
         te_rep, te_pts = te_arr, [float(v) for v in te_arr]
     nd_rep, nd_pts = None, [0.0] * npts
     if case["donor_mode"] == "donor":
-        nd_rep, nd_pts = make_profile(0.01 * base, 3.0 * base, allow_zero=True)
+        nd_rep, nd_pts = make_profile(0.01 * base, 3.0 * base, allow_zero=True, pattern=pat_nd)
     elif case["donor_mode"] == "donor_zero":
         nd_rep, nd_pts = make_profile(0.0, 0.0)
     nel_rep, nel_pts = make_profile(1e-4 * base, 1e-2 * base)
@@ -435,4 +481,12 @@ def run_case(ib, rec, case, rng_mod):
         add("neut", "match_plasma_neutrality[psin grid]", flat(out), species=sp_list)
     else:
         raise AssertionError(rep)
+    # reference for the cross-entry-point agreement: the scalar entry point at every point's own values
+    # (search only; the scalar entry point itself is tied to the model by the scalar cases)
+    if npts > 1 or rep not in ("scalar",):
+        for k, pt in enumerate(points):
+            nd_k = None if nd_rep is None else pt["n_d"]
+            out = ib.fractional_abundance(ad, el, pt["n_e"], pt["t_e"], donor_el, nd_k, donor_charge)
+            vals = [float(np.asarray(out[c]).reshape(-1)[0]) for c in range(z + 1)]
+            pt["outs"].insert(0, {"kind": "frac", "src": "fractional_abundance[scalar call at this point]", "values": vals, "coq": False})
     return points
